@@ -421,8 +421,9 @@ def zone_subset(zones, n=40):
     return sorted(out, key=lambda z: z["name"])
 
 
-def time_spellings(w):
-    """every admissible spelling of wall second-of-day w (12:xx am/pm left out)"""
+def time_spellings(w, twelve=False):
+    """every admissible spelling of wall second-of-day w; twelve: also 12:xx am (= 00:xx) and 12:xx pm (= 12:xx) - only C11 asks for
+    them: the pinned tree reads 12:xx am as noon (known finding KF-C11-twelve-am)"""
     h, m, s = w // 3600, w % 3600 // 60, w % 60
     out = [("hms", "%d:%02d:%02d" % (h, m, s)), ("0hms", "%02d:%02d:%02d" % (h, m, s))]
     if s == 0:
@@ -433,6 +434,10 @@ def time_spellings(w):
         if 13 <= h <= 23:
             out.append(("hm_pm", "%d:%02d pm" % (h - 12, m)))
             out.append(("hm_PM", "%02d:%02d PM" % (h - 12, m)))
+        if twelve and h == 0:
+            out.append(("hm_12am", "12:%02d am" % m))
+        if twelve and h == 12:
+            out.append(("hm_12pm", "12:%02d pm" % m))
         if m == 0:
             if 1 <= h <= 11:
                 out.append(("h_am", "%d am" % h))
@@ -449,7 +454,7 @@ def zone_text(z, case="upper"):
 
 
 def time_text(w, z, sp, zcase="upper"):
-    t = dict(time_spellings(w))[sp]
+    t = dict(time_spellings(w, True))[sp]
     return t if not z["name"] else t + " " + zone_text(z, zcase)
 
 
